@@ -414,7 +414,10 @@ def c18(ck):
                "{no-op, next, in, out} (84 scripts for L=3, 340 for L=4) and without a stepper; result, error-ness, effect "
                "log and globals must equal Def.tla's outcome; every (form, visible bindings of x y e q) handed to the "
                "callback must be in the set of (form, scope) pairs Def.tla's evaluation of that program visits "
-               "(quasiquote evaluated through the rewrite as coded)")
+               "(quasiquote evaluated through the rewrite as coded); stepper protocol: for 22 scripts per program the "
+               "recorded consultations (form, live EVAL activations, outing flags, answer) must be exactly the "
+               "consultation log of the small-step machine Eval.tla run with the same script (TraceStep.tla), which also "
+               "asserts on the model that the script does not change the outcome")
     q = ck.quick
     for which, size in (("c01", 2 if q else 3), ("c03", 2), ("c12", 2)):
         consts = {"Which": '"%s"' % which, "MaxSize": size}
@@ -424,6 +427,10 @@ def c18(ck):
         ck.replay(r.cases, args=args, procs=16, timeout=3000)
         ck.extra.setdefault("bounds", {})[which] = consts
     ck.exhaustive = True
+    # the stepper PROTOCOL (consultation order, flags, deferred resets, recursion at the loop bottom) as modelled in
+    # Eval.tla, validated against every real consultation
+    for which, size in (("c01", 2 if q else 3), ("c03", 2), ("c12", 2)):
+        stepper_traces(ck, which, size)
 
 
 def parse_race_reports(paths):
@@ -841,3 +848,50 @@ def machine_refines_def(ck, which, size):
     if r.exit != 0:
         raise InfraError("Eval.tla does not refine Def.tla (%s, size %d): exit %s\n%s" % (which, size, r.exit, tail(r.stdout_path)))
     ck.extra.setdefault("machine_refines_definition", {})[which] = {"max_size": size, "programs": r.distinct // 2}
+
+
+def stepper_traces(ck, which, size):
+    """Trace validation of the stepper protocol: real consultations vs the machine of Eval.tla with the same script."""
+    import os, json
+    r = ck.tlc("GenC18", cfg(constants={"Which": '"%s"' % which, "MaxSize": size}), timeout=1500)
+    ck.tlc_ok(r, "GenC18")
+    cases = [dict(c, kind="steplog", id="sl:" + c["id"]) for c in r.cases if c["allow"]["k"] not in ("div", "unspec")]
+    vs = ck.harness_procs(["replay"] + ck.write_ctx(r.ctx), cases, 16, timeout=3000)
+    byid = {c["id"]: c for c in cases}
+    rows = []
+    for v in vs:
+        if v.get("verdict") != "ok":
+            ck.report(v.get("key") or v["verdict"], v.get("note") or "", {"case": byid[v["id"]], "verdict": v})
+            continue
+        c = byid[v["id"]]
+        for rec in v["obs"]:
+            rows.append({"sz": c["sz"], "idx": c["idx"], "script": rec["script"], "log": rec["log"] or []})
+    trace = os.path.join(ck.scratch, "steps-%s.ndjson" % which)
+    write_ndjson(trace, rows)
+    t = ck.tlc("TraceStep", cfg(constants={"Which": '"%s"' % which}), env={"VERIF_TRACE": trace}, want_cases=False,
+               timeout=3000, heap="12g")
+    if t.exit != 0:
+        raise InfraError("TraceStep failed: exit %s\n%s" % (t.exit, tail(t.stdout_path)))
+    rej, abst = [], 0
+    for line in open(t.stdout_path, errors="replace"):
+        if line.startswith('"REJECT '):
+            rej.append(json.loads(line.strip())[7:])
+        elif line.startswith('"ABSTAIN '):
+            abst += 1
+    ck.traces_validated += len(rows) - abst
+    ck.extra.setdefault("stepper_traces", {})[which] = {"runs": len(rows), "consultations": sum(len(r_["log"]) for r_ in rows),
+                                                        "abstained": abst, "rejected": len(rej)}
+    for line in rej[:20]:
+        idx, _, why = line.partition(" ")
+        ck.report("stepper:consultations-differ-from-machine", "the stepper is not consulted as the machine of Eval.tla says: " + why[:500],
+                  {"case": {"kind": "steplog-trace", "record": int(idx), "why": why}})
+    if rows:
+        bad = [dict(r_) for r_ in rows[:80]]
+        for b in bad:
+            if len(b["log"]) > 1:
+                b["log"] = b["log"][1:]
+        path = trace + ".corrupt"
+        write_ndjson(path, bad)
+        t2 = ck.tlc("TraceStep", cfg(constants={"Which": '"%s"' % which}), env={"VERIF_TRACE": path}, want_cases=False, timeout=900)
+        if '"REJECT ' not in open(t2.stdout_path, errors="replace").read():
+            raise InfraError("TraceStep accepted a trace with a missing consultation: it does not bind")
